@@ -187,6 +187,7 @@ func runConflictOnce(cc *conflictCase) xObs {
 			obs.Note += fmt.Sprintf(" %d error entries", len(el))
 		}
 	}
+	obs.Data = r.d
 	return obs
 }
 
@@ -216,7 +217,22 @@ func conflictCases(cfg *runCfg, r *rand.Rand, sh *Sharder, doc *CasesDoc, id *in
 		c := sh.File()
 		ot := fmt.Sprintf("{| ob_returned := %s; ob_called := %s; ob_ins := []; ob_errs := []; ob_late_calls := %d; ob_outstanding := %d; ob_changed_after := %s; ob_leaked := %d |}",
 			coqBool(o.Returned), nats(o.Called), o.Late, o.Outstanding, coqBool(o.ChangedAfter), o.Leaked)
-		c.Printf("Eval vm_compute in (\"%d\"%%string, true, quiescent_return %s).\n", *id, ot)
+		oracle := "quiescent_return " + ot
+		if cc.BReply == "objects" && !cc.BErr {
+			// here the two services agree: whatever the order of the replies, every user whose dependent
+			// call brought data has its name next to its id
+			users := []interface{}{}
+			for i := 0; i < cc.Users; i++ {
+				u := map[string]interface{}{"id": fmt.Sprintf("u%d", i)}
+				if cc.CKinds[i] == "ok" || cc.CKinds[i] == "partial" {
+					u["name"] = fmt.Sprintf("name of u%d", i)
+				}
+				users = append(users, u)
+			}
+			oracle += fmt.Sprintf(" && json_equiv %s %s", c.JSON(map[string]interface{}(o.Data)), c.JSON(map[string]interface{}{"users": users}))
+			doc.Dist["conflict:agreeing-replies-data-compared"]++
+		}
+		c.Printf("Eval vm_compute in (\"%d\"%%string, true, %s).\n", *id, oracle)
 		key, _ := json.Marshal(cc)
 		doc.Cases = append(doc.Cases, CaseInfo{ID: *id, Kind: "stitch-conflict", Input: cc, Observed: o, Nontrivial: true, Key: "conflict" + string(key)})
 		doc.Dist["conflict:b-"+cc.BReply]++
